@@ -1,4 +1,5 @@
 import OnlVerif.Lemmas.TimerKAbsFun
+import OnlVerif.Lemmas.TimerKTerm
 /-!
 # C19 on the kernel: the Timer *as processes on the kernel model* refines its LTS and fires exactly when prescribed
 
@@ -71,33 +72,13 @@ theorem timer_on_kernel_refines_lts (auto : Bool) (arg : Int) (cbs : List (Optio
   refine ⟨lts0 auto arg T, acts, create_lts0 auto arg hT, ?_⟩
   rw [absTimer_eq hi.k, firesOf_eq, ← outsOfH_eq]; exact hrun
 
-/-- **The callback fires exactly at the instants the property prescribes, and the run never crashes.**  For every
-positive `timeout`, one-shot or auto-restart, every finite controller script with non-negative gaps and positive
-`restart` arguments (calls exactly at an expiry instant included, before the wake-up as well as after it), every callback
-script, and both creation orders: at every state `s` reachable by kernel steps
-
-* the next `Environment.step` of the kernel model processes an event normally (`.ok`) or finds the agenda empty: no
-  exception ever leaves `step()` (in particular none of the kernel's refusals "process has terminated" / "a process is not
-  allowed to interrupt itself");
-* the call/fire history recorded in the trace passes the C19 oracle `TimerOnK.ostep` from the state of a fresh timer:
-  every callback invocation happened *exactly* at the pending instant — `0 + timeout` first; `timeout` after the previous
-  firing for an auto-restart timer; `r + τ` after a `restart(τ)` at `r` on a pending timer or from the callback — none after
-  a `stop()`, and no call found a prescribed firing overdue;
-* nothing prescribed is overdue now (`pending ≥ now`), and once the agenda is empty nothing is pending at all. -/
-theorem timer_on_kernel_fire_instants (auto : Bool) (arg : Int) (cbs : List (Option (CbOp ℚ))) (ctlFirst : Bool) (T : ℚ)
-    (script : List (ℚ × CbOp ℚ)) (hT : 0 < T) (hsc : ScriptOK script) (hcbs : CbsOK cbs) (fuel : Nat)
-    (s : KState ℚ (TSt ℚ)) (hreach : KReach (body auto arg cbs) (fuel + 1) (initState ctlFirst T script) s) :
-    ((∃ s', step (body auto arg cbs) (fuel + 1) s = .ok s') ∨ step (body auto arg cbs) (fuel + 1) s = .empty) ∧
+/-- what the invariant says about the oracle: the history is accepted, nothing is overdue, nothing is pending once the
+agenda is empty -/
+theorem oracle_of_inv {auto : Bool} {cbs : List (Option (CbOp ℚ))} {T : ℚ} {s : KState ℚ (TSt ℚ)} {a : A}
+    (hi : Inv auto cbs T s a) :
     ∃ o, orun auto cbs (o0 T) (histOf s.trace) = some o ∧ (∀ e, o.pending = some e → s.now ≤ e) ∧
       (s.agenda = [] → o.pending = none) := by
-  obtain ⟨a, _, hi, _⟩ := reach_inv (arg := arg) hcbs fuel ctlFirst script hT hsc hreach
-  refine ⟨?_, oOf a, hi.a.orc, ?_, ?_⟩
-  · cases hp : popMin s.agenda with
-    | none => right; simp [step, hp]
-    | some qr =>
-      obtain ⟨q, rest⟩ := qr
-      obtain ⟨s', _, _, h1, _⟩ := inv_step (arg := arg) hcbs fuel hi hp
-      exact Or.inl ⟨s', h1⟩
+  refine ⟨oOf a, hi.a.orc, ?_, ?_⟩
   · intro e he
     unfold oOf at he
     cases hst : a.stopped with
@@ -124,6 +105,34 @@ theorem timer_on_kernel_fire_instants (auto : Bool) (arg : Int) (cbs : List (Opt
     | sleep t q0 => simp [hph, TPhase.entries] at hent
     | dead => simp
 
+/-- **The callback fires exactly at the instants the property prescribes, and the run never crashes.**  For every
+positive `timeout`, one-shot or auto-restart, every finite controller script with non-negative gaps and positive
+`restart` arguments (calls exactly at an expiry instant included, before the wake-up as well as after it), every callback
+script, and both creation orders: at every state `s` reachable by kernel steps
+
+* the next `Environment.step` of the kernel model processes an event normally (`.ok`) or finds the agenda empty: no
+  exception ever leaves `step()` (in particular none of the kernel's refusals "process has terminated" / "a process is not
+  allowed to interrupt itself");
+* the call/fire history recorded in the trace passes the C19 oracle `TimerOnK.ostep` from the state of a fresh timer:
+  every callback invocation happened *exactly* at the pending instant — `0 + timeout` first; `timeout` after the previous
+  firing for an auto-restart timer; `r + τ` after a `restart(τ)` at `r` on a pending timer or from the callback — none after
+  a `stop()`, and no call found a prescribed firing overdue;
+* nothing prescribed is overdue now (`pending ≥ now`), and once the agenda is empty nothing is pending at all. -/
+theorem timer_on_kernel_fire_instants (auto : Bool) (arg : Int) (cbs : List (Option (CbOp ℚ))) (ctlFirst : Bool) (T : ℚ)
+    (script : List (ℚ × CbOp ℚ)) (hT : 0 < T) (hsc : ScriptOK script) (hcbs : CbsOK cbs) (fuel : Nat)
+    (s : KState ℚ (TSt ℚ)) (hreach : KReach (body auto arg cbs) (fuel + 1) (initState ctlFirst T script) s) :
+    ((∃ s', step (body auto arg cbs) (fuel + 1) s = .ok s') ∨ step (body auto arg cbs) (fuel + 1) s = .empty) ∧
+    ∃ o, orun auto cbs (o0 T) (histOf s.trace) = some o ∧ (∀ e, o.pending = some e → s.now ≤ e) ∧
+      (s.agenda = [] → o.pending = none) := by
+  obtain ⟨a, _, hi, _⟩ := reach_inv (arg := arg) hcbs fuel ctlFirst script hT hsc hreach
+  refine ⟨?_, oracle_of_inv hi⟩
+  cases hp : popMin s.agenda with
+  | none => right; simp [step, hp]
+  | some qr =>
+    obtain ⟨q, rest⟩ := qr
+    obtain ⟨s', _, _, h1, _⟩ := inv_step (arg := arg) hcbs fuel hi hp
+    exact Or.inl ⟨s', h1⟩
+
 /-- the states the `while True: self.step()` loop of `run()` goes through are reachable -/
 theorem runLoop_reach {body : TSt ℚ → Resume → Burst ℚ (TSt ℚ)} {fuel : Nat} {s0 : KState ℚ (TSt ℚ)}
     (hok : ∀ s, KReach body fuel s0 s → (∃ s', step body fuel s = .ok s') ∨ step body fuel s = .empty) :
@@ -147,6 +156,23 @@ theorem timer_on_kernel_run_fire_instants (auto : Bool) (arg : Int) (cbs : List 
     (fun s hs => (timer_on_kernel_fire_instants auto arg cbs ctlFirst T script hT hsc hcbs fuel s hs).1) n _ KReach.init
   obtain ⟨-, o, h3, h4, h5⟩ := timer_on_kernel_fire_instants auto arg cbs ctlFirst T script hT hsc hcbs fuel s h2
   exact ⟨s, o, h1, h3, h4, h5⟩
+
+/-- **A one-shot timer's run ends, and by then everything prescribed has happened.**  With `auto_restart = False`, for
+every controller script and callback script as above, `run()` of the kernel model returns (agenda empty, no exception)
+within `6·(calls of the controller) + (length of the callback script) + 6` kernel steps; the call/fire history of the
+final trace passes the C19 oracle and leaves nothing pending: every prescribed firing has taken place, exactly at its
+instant, and there was no other. -/
+theorem timer_on_kernel_one_shot_returns (arg : Int) (cbs : List (Option (CbOp ℚ))) (ctlFirst : Bool) (T : ℚ)
+    (script : List (ℚ × CbOp ℚ)) (hT : 0 < T) (hsc : ScriptOK script) (hcbs : CbsOK cbs) (fuel n : Nat)
+    (hn : 6 * script.length + cbs.length + 6 ≤ n) :
+    ∃ sF o, runAll (body false arg cbs) (fuel + 1) n (initState ctlFirst T script) = .returned .none sF ∧ sF.agenda = [] ∧
+      orun false cbs (o0 T) (histOf sF.trace) = some o ∧ o.pending = none := by
+  have h0 : Inv false cbs T (initState ctlFirst T script) (a0 ctlFirst T script) := inv_init ctlFirst script hT hsc
+  have hmu : (a0 ctlFirst T script).mu cbs.length < n := by
+    cases ctlFirst <;> simp [A.mu, a0, TPhase.mu, CPhase.mu, oldStat] <;> omega
+  obtain ⟨sF, aF, h1, h2, h3⟩ := run_returns_oneshot (arg := arg) hcbs fuel n _ _ h0 hmu
+  obtain ⟨o, h4, -, h6⟩ := oracle_of_inv h2
+  exact ⟨sF, o, h1, h3, h4, h6 h3⟩
 
 /-! ### what acceptance by the oracle means, clause by clause -/
 
